@@ -143,8 +143,9 @@ def replay_loop(sc):
     return ok, detail
 
 
-def h_loop(ctx, il, n0, lm, bound):
+def h_loop(ctx, il, n0, lm, bound, passes=MAX_PASSES):
     eng, prod, reg, crit, df, notional = make_engine(ctx, il, n0, lm, bound)
+    crit.max_calls = passes
     eng.configuration.convergence_criteria.compute_mc_paths = _limited(crit)
     rmse = ctx.real("rmse")
     ctx.assume(rmse > 0)
@@ -258,9 +259,10 @@ def harnesses(tier):
         hs.append(Harness(f"alloc.zero.{n}", h_alloc, {"n": n, "zero_cost": True}, max_paths=4000))
     for alpha in (1, 2):
         hs.append(Harness(f"budget.{alpha}", h_budget, {"alpha": alpha}, max_paths=200))
-    cfgs = [(0, 1, 1, 2), (1, 1, 1, 2), (1, 1, 2, 1)] if q else [(0, 1, 1, 3), (1, 1, 2, 3), (0, 2, 1, 3), (1, 2, 2, 3), (2, 1, 3, 2), (0, 1, 2, 3)]
-    for il, n0, lm, b in cfgs:
-        hs.append(Harness(f"loop.L{il}.N{n0}.M{lm}.B{b}", h_loop, {"il": il, "n0": n0, "lm": lm, "bound": b}, max_paths=30000, batch=10))
+    cfgs = [(0, 1, 1, 2, 4), (1, 1, 1, 2, 4), (1, 1, 2, 1, 4)] if q else \
+        [(0, 1, 1, 3, 4), (0, 2, 1, 3, 4), (1, 1, 1, 3, 4), (1, 1, 2, 2, 3), (1, 2, 2, 3, 2), (2, 1, 3, 1, 4), (0, 1, 2, 2, 3), (0, 3, 0, 4, 5)]
+    for il, n0, lm, b, ps in cfgs:
+        hs.append(Harness(f"loop.L{il}.N{n0}.M{lm}.B{b}.P{ps}", h_loop, {"il": il, "n0": n0, "lm": lm, "bound": b, "passes": ps}, max_paths=120000 if not q else 30000, batch=10))
     hs.append(Harness("twin", h_twin, twin="must_fail"))
     return hs
 
@@ -272,7 +274,8 @@ EXPECT = ["C06.positive_variance_gets_samples", "C06.sizes_are_rounded_up", "C06
 
 def main(tier):
     bounds = {"allocation": "variance/cost vectors of length <= 2 (quick) / 3 (thorough), all non-negative reals incl. zeros, all rmse > 0",
-              "loop": f"as C05: initial_level <= 1/2, level_max <= initial+1/+2, answers in [0,2]/[0,3], <= {MAX_PASSES} passes",
+              "loop": "as C05: initial_level <= 1/2, level_max <= initial+1/+2; quick: answers in [0,2] (two levels) / [0,1] (three levels), 4 passes; thorough: per configuration "
+                      "(answers bound, passes) from ([0,3], 4) on one or two levels down to ([0,1], 4) / ([0,2], 3) / ([0,3], 2) on three and four levels",
               "outside": "termination for unbounded sample-size answers (needs a bound on the callbacks, not a property of the loop); regression of alpha"}
     return run_check(PID, tier, harnesses(tier), expect=EXPECT, bounds=bounds,
                      assumptions=COMMON_ASSUMPTIONS + ["sqrt as UF with sqrt(t)^2 = t, sqrt(t) >= 0", "theta is read off compute_mc_paths_giles itself (argument of ceil for V=C=eps=1)"])
